@@ -958,3 +958,62 @@ func ruleSubscriptionClosed(c *Check, rule string) {
 	}
 	c.Floor(rule, nPaths, 1, "paths out of subscribing functions")
 }
+
+// WAIT-AFTER-CANCEL (C17-R6): a function that starts goroutines on a context it
+// derives, and defers both the cancellation of that context and a wait for the
+// goroutines, must cancel first: deferred calls run last-in-first-out, so the
+// wait has to be deferred BEFORE the cancel. In the other order the wait runs
+// while the context is still live and the goroutines (whose loops end only on
+// cancellation, R6) never return: the function hangs whenever it ends by
+// itself rather than through the caller's cancellation.
+func ruleWaitAfterCancel(c *Check, rule string) {
+	n, bad := 0, 0
+	for _, fn := range c.P.RepoFuncs() {
+		var cancels, waits []*ssa.Defer
+		for _, b := range fn.Blocks {
+			for _, in := range b.Instrs {
+				d, ok := in.(*ssa.Defer)
+				if !ok {
+					continue
+				}
+				if callee := d.Call.StaticCallee(); callee != nil {
+					s := callee.String()
+					if s == "(*sync.WaitGroup).Wait" || strings.HasSuffix(s, "errgroup.Group).Wait") {
+						waits = append(waits, d)
+					}
+					continue
+				}
+				if nt, ok := d.Call.Value.Type().(*types.Named); ok && nt.Obj().Pkg() != nil && nt.Obj().Pkg().Path() == "context" && nt.Obj().Name() == "CancelFunc" {
+					cancels = append(cancels, d)
+				}
+			}
+		}
+		for _, w := range waits {
+			for _, cn := range cancels {
+				n++
+				// cancel deferred before the wait ⇒ the wait runs first
+				before := false
+				if cn.Block() == w.Block() {
+					for _, in := range cn.Block().Instrs {
+						if in == ssa.Instruction(cn) {
+							before = true
+							break
+						}
+						if in == ssa.Instruction(w) {
+							break
+						}
+					}
+				} else {
+					before = cn.Block().Dominates(w.Block())
+				}
+				if before {
+					bad++
+					c.Bad(rule, QualName(fn)+"/wait-after-cancel", "the wait for the started goroutines is deferred after the cancellation of their context, so it runs before it: when the function ends by itself (run-once mode, a fatal error in the loop) the goroutines are never told to stop and the function never returns", c.P.InstrPos(w), nil)
+				}
+			}
+		}
+	}
+	if bad == 0 {
+		c.Ok(rule, "wait-after-cancel", fmt.Sprintf("%d (deferred wait, deferred cancel) pairs: none waits before cancelling", n), "")
+	}
+}
